@@ -613,7 +613,11 @@ fn main() {
             let o = exec(&mut store, &text, None);
             let post = dump(&store);
             let c1 = constraints(&mut store);
-            let probe = parse_dump(&post).and_then(|d| index_probe(&mut store, &d));
+            let mut probe = parse_dump(&post).and_then(|d| index_probe(&mut store, &d));
+            if probe.is_none() && o.rows.is_err() && clause.starts_with("cons2") {
+                let cp = if clause.starts_with("cons2keys") { vec![(0, 0, vec![55, 1]), (0, 1, vec![88, 55])] } else { vec![(0, 0, vec![77, 60, 5]), (1, 0, vec![77, 60, 5])] };
+                probe = constraint_probe(&mut store, &cp);
+            }
             let out = match &o.rows {
                 Ok(rows) => Ok(rows_text(rows)),
                 Err((k, _)) => Err(k.tag().to_string()),
@@ -707,7 +711,7 @@ fn main() {
             }
         }
         rep.exhaustive = true;
-        rep.exhaustive_note = "every (write shape of 15) x (1..4 input rows) x (failing row position) is planted in each repetition; the non-failing row values are random; plus 11 relationship-creation patterns between pre-existing / new nodes x 4 row layouts, 4 row-less multi-pattern CREATEs under a unique constraint, and every multi-item clause (SET / SET += / ON CREATE SET / ON MATCH SET) x 2..4 items x failing item position x {div0, type, unbound variable} x {single row, first of 3, last of 3}".into();
+        rep.exhaustive_note = "every (write shape of 15) x (1..4 input rows) x (failing row position) is planted in each repetition; the non-failing row values are random; plus 6 shapes x 2 label roles x 16 repetitions of a first-row failure under two unique constraints (same key on two labels / two keys on one label) with a Cypher probe of every constraint entry afterwards; plus 11 relationship-creation patterns between pre-existing / new nodes x 4 row layouts, 4 row-less multi-pattern CREATEs under a unique constraint, and every multi-item clause (SET / SET += / ON CREATE SET / ON MATCH SET) x 2..4 items x failing item position x {div0, type, unbound variable} x {single row, first of 3, last of 3}".into();
     }
 
     let mut lines = vec![];
